@@ -32,6 +32,7 @@ open Cascette.Props.C16
 #print axioms chunked_patch_bytes_roundtrip
 #print axioms suffix_patch_bytes_roundtrip
 #print axioms suffix_real_patch_bytes_roundtrip
+#print axioms build_bytes_total
 #print axioms apply_patch_bytes_length_or_error
 #print axioms patch_bytes_patchers_agree
 #print axioms apply_patch_bytes_eq_applyBytes
